@@ -1,5 +1,267 @@
 import Driver.Common
-/-! Driver for C03 (stub: not built yet). -/
-def main (_args : List String) : IO UInt32 := do
-  IO.eprintln "C03: driver not implemented"
-  return 2
+import CoapVerif.Model.TokenTable
+import CoapVerif.Spec.TokenMatch
+/-!
+Driver for C03.  `model`: replays a scenario line on `Model.TokenTable` (hash = the model's CRC-64, every op
+followed by running the system to quiescence, as `synctest.Wait` does) and prints the observation line the
+harness prints.  `judge`: `<scenario> | <observed line>` → `ok` / `violates <clause>` by `Spec.TokenMatch.judge`.
+-/
+namespace Driver.C03
+open CoapVerif CoapVerif.Model.TokenTable
+
+def parseTok (s : String) : Option (Option Token) :=
+  if s = "nil" then some none else (parseHex? s).map some
+
+def parseKind : String → Option Kind
+  | "ack" => some .ack | "rst" => some .rst | "pig" => some .pig | "con" => some .con
+  | "non" => some .non | "resp" => some .resp | _ => none
+
+def padTag (t : String) : String :=
+  if t.length < 17 then t ++ String.ofList (List.replicate (17 - t.length) '.') else t
+
+def splitOp (op : String) : Bool × List String :=
+  if op.startsWith "+" then (true, (op.drop 1).toString.splitOn ":") else (false, op.splitOn ":")
+
+/-- tokens named by a scenario (for the injectivity flag) -/
+def opTokens (ops : List String) : List Token :=
+  ops.filterMap fun op =>
+    match (splitOp op).2 with
+    | ["do", _, t, _] => (parseTok t).bind id
+    | ["peer", _, t, _, _] => (parseTok t).bind id
+    | ["blk", t, _, _, _] => (parseTok t).bind id
+    | _ => none
+
+def injective (toks : List Token) : Bool :=
+  toks.all fun a => toks.all fun b => a = b || crc64 a ≠ crc64 b
+
+/-- run to quiescence: drain the queue, then let every caller that can return do so -/
+def settle (cfg : Cfg) (s : State) : State := Id.run do
+  let mut s := s
+  for _ in [0:s.queue.length + 1] do
+    s := step crc64 cfg s .process
+  for c in s.order do
+    s := step crc64 cfg s (.ret c)
+    s := step crc64 cfg s (.retClosed c)
+  return s
+
+def resStr (c : Nat) : Res → String
+  | .ok m => s!"ret:{c}:ok:{toHex m.tok}:{if m.tag.isEmpty then "-" else m.tag}"
+  | .exists_ => s!"ret:{c}:exists"
+  | .badToken => s!"ret:{c}:badToken"
+  | .ctx => s!"ret:{c}:ctx"
+  | .closed => s!"ret:{c}:closed"
+
+def insertSorted (x : Nat) : List Nat → List Nat
+  | [] => [x]
+  | y :: ys => if x ≤ y then x :: y :: ys else y :: insertSorted x ys
+
+def sortNat (l : List Nat) : List Nat := l.foldl (fun acc x => insertSorted x acc) []
+
+/-- observations between two states -/
+def segment (tx : List String) (s0 s1 : State) : String :=
+  let rets := (sortNat s1.order).filterMap fun c =>
+    match s1.callers c with
+    | some cl =>
+      let before := match s0.callers c with | some cl0 => cl0.res.isSome | none => false
+      match cl.res with
+      | some r => if before then none else some (resStr c r)
+      | none => none
+    | none => none
+  let dfl := (s1.dflt.drop s0.dflt.length).map fun m => s!"dflt:{toHex m.tok}:{if m.tag.isEmpty then "-" else m.tag}"
+  let ev := tx ++ rets ++ dfl
+  if ev.isEmpty then "-" else String.intercalate "," ev
+
+def resolveMid (s : State) (sm : String) : Nat :=
+  if sm.startsWith "@" then
+    match (sm.drop 1).toString.toNat? with
+    | some c => match s.callers c with
+      | some cl => if cl.res == some .exists_ || cl.res == some .badToken then 65000 else c
+      | none => 65000
+    | none => 65000
+  else sm.toNat?.getD 65000
+
+/-- apply one op; returns the new state and the `tx` events it causes -/
+def applyOp (cfg : Cfg) (s : State) (f : List String) : Option (State × List String) :=
+  match f with
+  | ["do", c, t, typ] => do
+    let c ← c.toNat?
+    let t ← parseTok t
+    let tok := t.getD []
+    let s1 := step crc64 cfg s (.doStart c tok (typ == "con" || typ == "") c)
+    let sent := match s1.callers c with
+      | some cl => cl.res.isNone
+      | none => false
+    some (s1, if sent then [s!"tx:{toHex tok}"] else [])
+  | ["peer", k, t, m, tag] => do
+    let k ← parseKind k
+    let t ← parseTok t
+    let tok := if k == .ack || k == .rst then [] else t.getD []
+    let tag := if k == .ack || k == .rst then "" else tag
+    some (step crc64 cfg s (.arrive k tok (resolveMid s m) tag), [])
+  | ["blk", t, _m0, m1, tag] => do
+    let t ← parseTok t
+    let tok := t.getD []
+    if cfg.bw && (s.bwSend (crc64 tok)).isSome then
+      some (step crc64 cfg s (.arrive (if cfg.udp then .non else .resp) tok (m1.toNat?.getD 65000) (padTag tag)), [s!"txblk:{toHex tok}"])
+    else some (s, [])
+  | ["cancel", c] => do
+    let c ← c.toNat?
+    some (step crc64 cfg s (.cancel c), [])
+  | ["close"] => some (step crc64 cfg s .close, [])
+  | ["settle"] => some (s, [])
+  | _ => none
+
+/-- does the step of caller `c` leaving (return, cancel, close) erase a table entry that belongs to another caller? -/
+def erasesForeign (s : State) (c : Nat) : Bool :=
+  match s.callers c with
+  | some cl =>
+    if cl.pc == .returned then false else
+    let willLeave := (cl.pc == .waitResp && cl.slot.isSome) || s.closed
+    match s.table (crc64 cl.tok) with
+    | some c' => willLeave && c' != c
+    | none => false
+  | none => false
+
+/-- `classify`: which known mechanisms a scenario exercises (used only to give violations a stable signature) -/
+def classify (line : String) : String :=
+  match words line with
+  | ["disc", "duptoken"] => "-"
+  | "scn" :: tr :: bw :: ops =>
+    let cfg : Cfg := ⟨tr == "udp", bw == "1"⟩
+    let (_, flag) := ops.foldl (fun (acc : State × Bool) op =>
+      let (s, flag) := acc
+      match applyOp cfg s (splitOp op).2 with
+      | some (s1, _) =>
+        -- quiescence, step by step, watching the leaving callers
+        let (s2, fl) := Id.run do
+          let mut s := s1
+          let mut fl := flag
+          for _ in [0:s.queue.length + 1] do
+            s := step crc64 cfg s .process
+          for c in s.order do
+            if erasesForeign s c then fl := true
+            s := step crc64 cfg s (.ret c)
+            s := step crc64 cfg s (.retClosed c)
+          return (s, fl)
+        let fl := match (splitOp op).2 with
+          | ["cancel", c] => fl || (match c.toNat? with
+              | some c => (match s.callers c with
+                  | some cl => cl.pc != .returned && (match s.table (crc64 cl.tok) with | some c' => c' != c | none => false)
+                  | none => false)
+              | none => false)
+          | _ => fl
+        (s2, fl)
+      | none => (s, flag)) (init, false)
+    if flag then "erases-successor" else "-"
+  | _ => "bad-op"
+
+/-- what register-if-absent demands of a duplicate-token discovery: refused, the first one untouched, nothing left -/
+def discExpected : String := "during:1,1;second:rejected;first:ok;final:0,0"
+
+def model (line : String) : String :=
+  match words line with
+  | ["disc", "duptoken"] => discExpected
+  | "scn" :: tr :: bw :: ops =>
+    if tr != "udp" && tr != "tcp" then "bad-op" else
+    let cfg : Cfg := ⟨tr == "udp", bw == "1"⟩
+    let inj := if injective (opTokens ops) then "inj=1" else "inj=0"
+    let (_, segs, bad) := ops.foldl (fun (acc : State × List String × Bool) op =>
+      let (s, segs, bad) := acc
+      match applyOp cfg s (splitOp op).2 with
+      | some (s1, tx) =>
+        let s2 := settle cfg s1
+        (s2, segs ++ [segment tx s s2], bad)
+      | none => (s, segs, true)) (init, [inj], false)
+    if bad then "bad-op" else String.intercalate ";" segs
+  | _ => "bad-op"
+
+open CoapVerif.Spec.TokenMatch in
+/-- history of a scenario + its observed line -/
+def history (udp : Bool) (ops : List String) (segs : List String) : Option (List HEv) := do
+  -- callers that were refused as duplicates (anywhere in the observation)
+  let rejected : List Nat := (segs.flatMap (·.splitOn ",")).filterMap fun ev =>
+    match ev.splitOn ":" with
+    | ["ret", c, err] => if isDupErr err then c.toNat? else none
+    | _ => none
+  let mut hist : List HEv := []
+  let mut segs := segs
+  -- racing window = maximal run of '+' ops and the op that closes it: the order in which racing `do`s took effect is
+  -- not observable, so the accepted ones are placed first (the linearisation most favourable to the implementation)
+  let mut pendingStarts : List (Nat × Option (List UInt8) × Bool) := []
+  let mut windowStartIdx : List Nat := []
+  let mut seenCon : List String := []     -- message IDs of confirmable messages already sent: a repeat is a retransmission
+  for op in ops do
+    let (nowait, f) := splitOp op
+    match f with
+    | ["do", c, t, typ] =>
+      let c ← c.toNat?
+      let t ← parseTok t
+      let direct := !(udp && typ == "con")
+      pendingStarts := pendingStarts ++ [(c, t, direct)]
+      windowStartIdx := windowStartIdx ++ [hist.length]
+      hist := hist ++ [.start c t direct]
+    | ["peer", k, t, m, tag] =>
+      let t ← parseTok t
+      let retransmission := (k == "con" || k == "non") && seenCon.contains m
+      if k == "con" then seenCon := m :: seenCon
+      if k != "ack" && k != "rst" then hist := hist ++ [.peer (t.getD []) tag (!retransmission)]
+    | ["blk", t, _, _, tag] =>
+      let t ← parseTok t
+      hist := hist ++ [.peer (t.getD []) (padTag tag) true]
+    | ["close"] => hist := hist ++ [.close]
+    | _ => pure ()
+    if !nowait then
+      -- close the window: re-fill the start positions, not-rejected callers first
+      let sorted := pendingStarts.filter (fun p => !rejected.contains p.1) ++ pendingStarts.filter (fun p => rejected.contains p.1)
+      for (i, p) in windowStartIdx.zip sorted do
+        hist := hist.set i (.start p.1 p.2.1 p.2.2)
+      pendingStarts := []
+      windowStartIdx := []
+    match segs with
+    | [] => none
+    | seg :: rest =>
+      segs := rest
+      if seg != "-" && seg != "+" then
+        for ev in seg.splitOn "," do
+          match ev.splitOn ":" with
+          | ["ret", c, "ok", tok, tag] =>
+            let c ← c.toNat?
+            let tok ← parseHex? tok
+            hist := hist ++ [.retOk c tok (if tag == "-" then "" else tag)]
+          | ["ret", c, err] =>
+            let c ← c.toNat?
+            hist := hist ++ [.retErr c err]
+          | _ => pure ()
+      if !nowait then hist := hist ++ [.idle]
+  return hist
+
+def judgeLine (line : String) : String :=
+  match line.splitOn " | " with
+  | [inp, obs] =>
+    if words inp == ["disc", "duptoken"] then
+      (if obs.trimAscii.toString == discExpected || obs.trimAscii.toString == "skip:listen" then "ok" else "violates reject-duplicate")
+    else
+    match words inp, obs.trimAscii.toString.splitOn ";" with
+    | "scn" :: tr :: _ :: ops, _inj :: segs =>
+      if segs.length != ops.length then "violates unparsable-observation" else
+      if obs.contains "panic" then "violates no-crash" else
+      match history (tr == "udp") ops segs with
+      | some h => match Spec.TokenMatch.judge h with
+        | none => "ok"
+        | some c => s!"violates {c}"
+      | none => "violates unparsable-observation"
+    | _, _ => "bad-op"
+  | _ => "bad-op"
+
+end Driver.C03
+
+def main (args : List String) : IO UInt32 := do
+  let stdin ← IO.getStdin
+  let stdout ← IO.getStdout
+  match args with
+  | ["model"] => Driver.forLines stdin fun l => stdout.putStrLn (Driver.C03.model l)
+  | ["judge"] => Driver.forLines stdin fun l => stdout.putStrLn (Driver.C03.judgeLine l)
+  | ["classify"] => Driver.forLines stdin fun l => stdout.putStrLn (Driver.C03.classify l)
+  | _ => IO.eprintln "usage: drv_c03 model|judge|classify"; return 2
+  stdout.flush
+  return 0
